@@ -175,12 +175,10 @@ example : icdfOk 7 trimIcdf = true ∧ symOf 7 100 trimIcdf 0 = some 6 := by dec
   probability-LAPLACE_MINP tail has room for at least one symbol of each sign. -/
 
 /-- "For every energy-model parameter pair": each of the 4·2·21 `(fs, decay) = (e_prob_model[LM][intra][2b]<<7,
-    e_prob_model[LM][intra][2b+1]<<6)` pairs satisfies `LaplaceOk`, and the documented precondition of
-    `ec_laplace_get_freq1` (`0 < decay ≤ 11456`, `fs ≤ 32768 − 2·LAPLACE_NMIN`), under which no C `unsigned`
-    intermediate of laplace.c wraps. -/
+    e_prob_model[LM][intra][2b+1]<<6)` pairs satisfies `LaplaceOk`; with `decay < 2^16` no C `unsigned` product of
+    laplace.c wraps, so the model's unbounded arithmetic is the C arithmetic on these pairs. -/
 theorem eprob_pairs_ok (lm intra band : Nat) (h1 : lm < 4) (h2 : intra < 2) (h3 : band < 21) :
-    LaplaceOk (eprobFs lm intra band) (eprobDecay lm intra band) = true ∧
-    0 < eprobDecay lm intra band ∧ eprobDecay lm intra band ≤ 11456 ∧ eprobFs lm intra band ≤ 32736 :=
+    LaplaceOk (eprobFs lm intra band) (eprobDecay lm intra band) = true ∧ eprobDecay lm intra band < 65536 :=
   OpusProofs.Laplace.eprob_ok h1 h2 h3
 
 example : eprobFs 0 0 0 = 9216 ∧ eprobDecay 0 0 0 = 8128 ∧ eprobFs 3 1 20 = 9856 ∧ eprobDecay 3 1 20 = 2560 := by decide
